@@ -7,6 +7,8 @@ CONSTANTS
   Forms <- McForms
   Sizes = {17}
   AadSizes = {0, 20}
+  PayClasses = {"pattern"}
+  KeyVars = {"plain"}
   Deviation = "inflate-skipped"
 INVARIANTS PayloadIntact
 CHECK_DEADLOCK FALSE
